@@ -193,6 +193,29 @@ ComboSpace ==
   UNION { [N : {N}, c : 1..Len(Cells), m : 1..Len(Masks), t : 1..Len(TypeSets(N)),
            p : 1..Len(ParSets), s : 1..2] : N \in Sizes }
 
+\* LatticeLemma: on small one-species lattices every pair has the geometry of the pair (1, j') with the same index
+\* difference (Hessian!LatticeTranslation) and GeoOne is the row of GeoOf; the trace specification then decides lattices
+\* with tens of thousands of interacting pairs from the row of particle 1.  Evaluated once per check (shard 0, DIM 2).
+SmallHessLat(n, a, rcn) ==
+  LET d  == Len(n)
+      N  == ProdSeq(n)
+      ps == IF d = 2 THEN [m \in 1..N |-> <<a * ((m - 1) \div n[2]), a * ((m - 1) % n[2])>>]
+            ELSE [m \in 1..N |-> <<a * ((m - 1) \div (n[2] * n[3])), a * (((m - 1) \div n[3]) % n[2]), a * ((m - 1) % n[3])>>]
+  IN  [ dim |-> d, S |-> 10, H |-> [k \in 1..d |-> [j \in 1..d |-> IF j = k THEN n[k] * a ELSE 0]], ppp |-> [k \in 1..d |-> 1],
+        pos |-> ps, typ |-> [i \in 1..N |-> 1], mroot |-> << <<3, 2>> >>, model |-> "lennard_jones", shift |-> TRUE,
+        eps |-> << << <<1, 1>> >> >>, sigma |-> << << <<1, 1>> >> >>, rc |-> << << <<rcn, 10>> >> >>,
+        n |-> <<12, 1>>, A |-> <<1, 1>>, alpha |-> <<2, 1>>, lat |-> [n |-> n, a |-> a] ]
+ASSUME LatticeLemma ==
+  (SHARD # 0 \/ DIM # 2) \/
+  \A lc \in { SmallHessLat(<<3, 3>>, 10, 12), SmallHessLat(<<3, 5>>, 10, 21), SmallHessLat(<<5, 5>>, 10, 23),
+               SmallHessLat(<<3, 3, 3>>, 10, 15), SmallHessLat(<<3, 3, 5>>, 10, 18) } :
+     /\ IsHessLattice(lc)
+     /\ LatticeTranslation(lc, lc)
+     /\ LET g == GeoOf(lc) g1 == GeoOne(lc) IN
+        /\ \A k \in 1..Len(g1) : g1[k] = g[k]              \* pairs (1, 2) .. (1, N) come first in PairSeq
+        /\ Interacting(g1) # {} /\ Interacting(g1) # 1..Len(g1)
+     /\ ~IsHessLattice([lc EXCEPT !.pos[1] = lc.pos[2]]) /\ ~IsHessLattice([lc EXCEPT !.ppp[1] = 0])
+
 Init ==
   /\ tabs = PotTable
   /\ \E cb \in ComboSpace : \E g \in GeomsFor(cb) :
